@@ -12,6 +12,7 @@ body, or because registration failed part-way; while scopes are open the
 baseline part of the table is untouched and exactly the symbols of the open
 scopes are present and convert with their defined factor.
 """
+import json
 import math
 
 from .core import Machine, Violation
@@ -164,6 +165,8 @@ class UnitScopeMachine(Machine):
         self.pool = list(fresh_pool())
         self.stack = []        # [{env, units(list of spec), pre(snapshot)}]
         self.known_syms = {}   # sym -> spec of every symbol ever attempted
+        self.unit_objects = {}  # description -> the dict object handed to UnitEnvironment
+        self.closed_specs = []  # descriptions of scopes that were opened and closed
         self.queue = []
         self.swept = False
         self.ndip = 0
@@ -303,7 +306,12 @@ class UnitScopeMachine(Machine):
                     k = rng.randint(0, len(good))
                     return {"op": "open", "units": good[:k] + [bad] + good[k:],
                             "bad": {"k": k, "kind": bk}}
-            return {"op": "open", "units": good, "bad": None}
+            if self.closed_specs and rng.random() < 0.25:
+                # open again exactly what an earlier, now closed scope registered
+                again = rng.choice(self.closed_specs)
+                if not any(u["sym"] in self.open_symbols() for u in again):
+                    return {"op": "open", "units": again, "bad": None, "reuse": True}
+            return {"op": "open", "units": good, "bad": None, "reuse": rng.random() < 0.5}
         if kind == "close":
             return {"op": "close"}
         if kind == "raise":
@@ -444,6 +452,8 @@ class UnitScopeMachine(Machine):
 
     def _close(self, where):
         sc = self.stack.pop()
+        if len(self.closed_specs) < 8:
+            self.closed_specs.append(sc["units"])
         self._exit(sc, (None, None, None), where)
         self._same_as(sc["pre"], where, "leak/after_close")
 
@@ -495,7 +505,15 @@ class UnitScopeMachine(Machine):
             dedup[u["sym"]] = u
         spec = list(dedup.values())
         pre = tables.snapshot()
-        units = build_units(spec)
+        # users define a units dict once and hand the same object to several `with` blocks:
+        # reuse the object built for an identical description earlier in this run
+        key = json.dumps(spec, sort_keys=True)
+        if op.get("reuse") and key in self.unit_objects:
+            units = self.unit_objects[key]
+            self.stats.probe("units_dict_object_reused")
+        else:
+            units = build_units(spec)
+            self.unit_objects[key] = units
         try:
             env = UnitEnvironment(units)
         except BaseException as e:
